@@ -322,7 +322,9 @@ def replace_pattern_in_structure(
             new_atoms = replace_pattern.copy()
             new_atoms.positions = q.apply(new_atoms.positions)
             new_atoms.translate(atom_positions[0])
-            new_atoms.positions %= np.diag(new_structure.cell)
+            # wrap into the unit cell using fractional coordinates so that triclinic cells work too
+            cell = new_structure.cell
+            new_atoms.positions = np.matmul(np.matmul(new_atoms.positions, np.linalg.inv(cell)) % 1.0, cell)
 
             if verbose:
                 print("new atoms after translate:\n", new_atoms.positions)
